@@ -152,6 +152,28 @@ CHECKS["C06"] = dict(
     design="3/C06",
 )
 
+CHECKS["C07"] = dict(
+    technique="symbolic tensor execution of the real gate builders and circuit simulators with symbolic gate parameters (cos/sin/exp generators) and symbolic raw gates; z3 identity queries; LAPACK contract stubs + certificates for the MPS simulators",
+    text="Bounded symbolic model checking: every registered constant and parametrized gate builder is unitary for all parameter values (symbolic half-angle generators) and satisfies its defining "
+         "relations; on 3 qubits, ten gate programs (constant, parametrized, reversed / distant two-qubit, SWAP / IDEN specials, idle wires, controlled and multi-controlled, raw symbolic matrices) "
+         "run through Circuit in every gate_contract mode and CircuitDense, and through CircuitMPS / CircuitPermMPS with cutoff 0: to_dense, amplitudes, unitary, partial traces (site order), "
+         "local expectations (light cones), marginals equal the reference U_n...U_1|0> for all parameter and matrix values, or the gate is rejected by raising; histories interleaving "
+         "queries with further gates and parameter updates give the same answers as a fresh circuit (no stale caches). Samplers are cross-run numerically only.",
+    note="Trusted: z3, qv engines, LAPACK contracts (MPS simulators; real entries there), float constants of numeric gate splitting identified up to 64 ulp. Outside: truncation, PEPS/PEPO simulators, "
+         "simplification passes inside queries (C04), sample statistics, more than 3 qubits, gate_contract=True unitary extraction (rejected by the library by raising).",
+    design="3/C07",
+)
+
+CHECKS["C13"] = dict(
+    technique="symbolic tensor execution of every local-expectation / reduced-density-matrix / norm route on symbolic complex tensor entries; z3 identity queries on cross-multiplied ratios; LAPACK contract stubs + certificates for canonical and boundary routes",
+    text="Bounded symbolic model checking: on path, ring, star and hyper-index networks (3-4 sites, bond 2, mixed physical dimensions), MPS L=3 (4 thorough), PEPS 2x2 / 3x2, PEPS3D 2x2x2, MPO and PEPO "
+         "operators, every route (exact, cluster with spanning clusters, generalized / simple loop expansions spanning the ring, MPS environments and canonical-form shortcuts with the recorded "
+         "centre, PEPS boundary modes without truncation) returns <psi|G|psi>/<psi|psi> (or the documented un-normalized / separate pair) and the reduced density matrix of the dense state, "
+         "for all tensor entries, full non-symmetric complex operators, single sites and adjacent / non-adjacent / reversed pairs.",
+    note="Trusted: z3, qv engines, LAPACK contracts. Outside: truncating bond caps and cutoffs, clusters / loops that do not span the network, random sampling routes, rounding. One known finding (global loop normalization).",
+    design="3/C13",
+)
+
 NA = {}
 
 
